@@ -161,6 +161,26 @@ def _run_case(case, ctx):
             ctx.violation(key("last-error-tol-stopped"), "%s stopped by tol after %d values: last reported %.12g, true error of the returned decomposition %.12g" % (
                 algo, len(r["errors"]), float(r["errors"][-1]), te), {"desc": desc, "errors": [float(e) for e in r["errors"]]})
             return
+        # (3a) the iteration cap set to exactly the sweep at which the tolerance fired (and one below): convergence at the very last
+        # allowed iteration must report and return the same things
+        L = len(r["errors"])
+        if 1 <= L < 40 and algo not in NO_PREFIX:
+            for cap in sorted({L, max(L - 1, 1)}):
+                r2 = decomp.run(algo, data, rank, cap, dict(opts), seed, tol=1e-3, init=None if user_init is None else (None, [f.copy() for f in user_init[1]]))
+                ctx.count("values/cap-at-convergence")
+                e2 = r2["errors"] or []
+                if len(e2) != cap or any(abs(float(a) - float(b)) > 1e-9 * (1 + abs(float(a))) for a, b in zip(e2, r["errors"])):
+                    ctx.violation(key("cap-at-convergence"), "%s: tolerance-stopped run reports %d values %r; the same run capped at %d sweeps reports %r" % (
+                        algo, L, [float(e) for e in r["errors"]][-4:], cap, [float(e) for e in e2][-4:]), desc)
+                    return
+                te2, sc2 = decomp.true_error(algo, data, decomp.snapshot(r2["decomp"]))
+                if e2 and not sq_ok(e2[-1], te2, sc2, eps, sq):
+                    ctx.violation(key("last-error-cap-at-convergence"), "%s capped at %d sweeps (where its tolerance also fires): last reported %.12g, true error %.12g" % (
+                        algo, cap, float(e2[-1]), te2), desc)
+                    return
+                if cap == L and not _same_decomp(decomp.snapshot(r2["decomp"]), decomp.snapshot(r["decomp"])):
+                    ctx.violation(key("cap-at-convergence"), "%s: the run capped at the sweep where the tolerance fires returns a different decomposition than the tolerance-stopped run" % algo, desc)
+                    return
     # (3b) long line-search runs: rejected extrapolations typically appear after tens of sweeps
     if "linesearch" in which and user_init is None:
         for tolv, budget in ((1e-7, 90), (tiny, int(gen.choice(rs, [23, 37, 52, 71])))):
